@@ -328,7 +328,39 @@ def check_C09(tier, replay=None):
                   ["concretiser, syn-based abstraction, TLC-side resolution of type paths", "TLC"])
 
 
-CHECKS = {"C09": check_C09, "C10": check_C10, "C08": check_C08, "C11": check_C11, "C06": check_C06, "C15": check_C15, "C02": check_C02}
+# ------------------------------------------------------------------------- C12
+
+def check_C12(tier, replay=None):
+    R = Result("C12", tier)
+    dev = [d for d in z.dev_set() if d in ("D05",)]
+    devs = tla_set(dev)
+    z.build_harness()
+    os.environ["ZV_SCRATCH"] = os.path.join(z.BUILD, "scratch")
+    consts = {"Ops": '{"o1","o2","o3"}', "Parts": '{"auth","bodyPart","trace"}', "NOps": "4" if tier == "quick" else "5", "Dev": devs}
+    invs = ["Deterministic", "SameAsRemembered", "BodyIsUnnamedPart"]
+    c = cfg("MCSpec", consts, invariants=invs)
+    res, vocab, cases, _ = mc_run(R, "MC_C12", c, "MC_C12", workers=4, need_ok=not dev)
+    log(f"MC_C12: {res['distinct']} distinct states")
+    cases += corpus_cases("C12", "c12path")
+    for i, cs in enumerate(cases):
+        cs["id"] = i + 1
+        cs["nproc"] = 6 if tier == "quick" else 24
+    R.cases, R.vocab = cases, vocab
+    traces, crashed = z.run_harness(vocab, cases, "C12", shards=min(len(cases), 8), per_case_timeout=600)
+    tcfg = cfg("TraceSpec", {"Dev": devs}, post="Accepted")
+    viol, known, stale, drift = trace_run(R, "Trace_C12", tcfg, traces, "T_C12")
+    R.viol = viol
+    for k in known:
+        R.known.setdefault("D05", k)
+    gens = sum(1 for t in traces for line in open(t) if '"ev": "gen"' in line or '"ev":"gen"' in line)
+    R.extra["generations_compared"] = gens
+    R.samples = [{"label": c.get("label"), "start": c.get("start") or c.get("path")} for c in cases[:4]]
+    return finish(R, "model_checking",
+                  "inputs = TLC-printed WSDLs (4-5 operations, a three-part message, an imported and an unrelated schema file) + the repository's schemas; each input is generated under every registration order of its files, three times on one object, from eight threads and in 6 (quick) / 24 (thorough) fresh processes; TLC's observer (Api!memo) requires every generation to equal the first; histories are also the RepeatSame invariant of spec/Imports.tla",
+                  ["FNV digest of the emitted bytes", "TLC", "fresh processes get fresh hash seeds (std RandomState)"])
+
+
+CHECKS = {"C12": check_C12, "C09": check_C09, "C10": check_C10, "C08": check_C08, "C11": check_C11, "C06": check_C06, "C15": check_C15, "C02": check_C02}
 
 
 def main(argv):
